@@ -346,6 +346,17 @@ func genC08(g *gen) {
 		}
 		// rank-0 operands (single-cell slices) and unknown variables
 		for _, dt := range []string{"f64", "i8", "u16"} {
+			// ties (value set 3: five values over more cells): the first extreme element in the *logical* (row-major
+			// coordinate) order wins, whatever the storage order - flat and per axis, every constructor
+			for _, ord := range []string{"C", "Fraw", "Fconv"} {
+				for _, sh := range []string{"2,2", "2,3", "3,3", "3,4", "2,3,2", "4,2"} {
+					for _, via := range []string{"fn", "meth"} {
+						g.emit("vset=3", fmt.Sprintf("new %s %s %s", dt, sh, ord), fmt.Sprintf("arg argmax %s $0 all vs=3", via), "dump $1",
+							fmt.Sprintf("arg argmin %s $0 all vs=3", via), "dump $2", fmt.Sprintf("arg argmax %s $0 0 vs=3", via), "dump $3",
+							fmt.Sprintf("arg argmin %s $0 1 vs=3", via), "dump $4", "dump $0")
+					}
+				}
+			}
 			g.emit("vset=3", fmt.Sprintf("new %s 2,3 C", dt), "slice $0 1,2", "red sum fn $1 - vs=3", "dump $2", "red max meth $1 0 vs=3", "arg argmax fn $1 all vs=3", "dump $4", "arg argmin meth $1 0 vs=3", "reduce $1 0 vs=3", "dump $1", "dump $0")
 			g.emit("vset=3", fmt.Sprintf("new %s 2,3 C", dt), "red sum fn $4 0 vs=3", "arg argmax fn $4 0 vs=3", "reduce $4 0 vs=3", "red sum fn $1 0 vs=3", "dump $0")
 			g.emit("vset=2", fmt.Sprintf("new %s 2,3 C", dt), "red sum fn $0 0 vs=2", "red max fn $1 0 vs=2", "dump $2", "red sum fn $0 1 vs=2", "reduce $3 0 vs=2", "dump $4", "dump $0")
